@@ -324,10 +324,12 @@ pub fn construct_sweep(rng: &mut Rng) -> Vec<Prog> {
 /// kind) - the properties that use the sweep only judge the programs that evaluate
 pub fn stdlib_sweep() -> Vec<(String, String)> {
   let unary: [(&str, &str); 12] = [("f64", "2.5"), ("row", "[1 2 3]"), ("col", "[1; 2; 3]"), ("mat", "[1 2; 3 4]"), ("wide", "[1 2 3 4 5; 6 7 8 9 10]"), ("col5", "[1; 2; 3; 4; 5]"), ("u8", "3u8"), ("i64", "3<i64>"), ("set", "{1, 2, 3}"), ("string", "\"ab\""), ("bool", "true"), ("boolrow", "[true false true]")];
-  let binary: [(&str, &str, &str); 25] = [("f64,f64", "2.5", "0.5"), ("row,row", "[1 2 3]", "[4 5 6]"), ("col,col", "[1; 2; 3]", "[4; 5; 6]"), ("mat,mat", "[1 2; 3 4]", "[5 6; 7 8]"), ("mat,f64", "[1 2; 3 4]", "2"), ("f64,mat", "2", "[1 2; 3 4]"), ("mat,col", "[1 2; 3 4]", "[5; 6]"),
+  let binary: [(&str, &str, &str); 34] = [("f64,f64", "2.5", "0.5"), ("row,row", "[1 2 3]", "[4 5 6]"), ("col,col", "[1; 2; 3]", "[4; 5; 6]"), ("mat,mat", "[1 2; 3 4]", "[5 6; 7 8]"), ("mat,f64", "[1 2; 3 4]", "2"), ("f64,mat", "2", "[1 2; 3 4]"), ("mat,col", "[1 2; 3 4]", "[5; 6]"),
     ("u8,u8", "7u8", "2u8"), ("set,set", "{1, 2, 3}", "{2, 3, 4}"), ("f64,set", "2", "{1, 2, 3}"), ("set,f64", "{1, 2, 3}", "4"), ("string,string", "\"ab\"", "\"cd\""), ("bool,bool", "true", "false"),
     ("bool,boolrow", "true", "[true false true]"), ("boolrow,bool", "[true false true]", "true"), ("boolrow,boolrow", "[true false true]", "[true true false]"), ("boolmat,bool", "[true false; false true]", "true"), ("bool,boolmat", "false", "[true false; false true]"),
-    ("f64,row", "2", "[1 2 3]"), ("row,f64", "[1 2 3]", "2"), ("f64,col", "2", "[1; 2; 3]"), ("col,f64", "[1; 2; 3]", "2"), ("mat,row", "[1 2; 3 4]", "[5 6]"), ("u8row,u8", "[1u8 2u8 3u8]", "2u8"), ("u8,u8row", "2u8", "[1u8 2u8 3u8]")];
+    ("f64,row", "2", "[1 2 3]"), ("row,f64", "[1 2 3]", "2"), ("f64,col", "2", "[1; 2; 3]"), ("col,f64", "[1; 2; 3]", "2"), ("mat,row", "[1 2; 3 4]", "[5 6]"), ("u8row,u8", "[1u8 2u8 3u8]", "2u8"), ("u8,u8row", "2u8", "[1u8 2u8 3u8]"),
+    // a vector on the LEFT of a matrix, and non-square matrices with both vector orientations on either side
+    ("col,mat", "[5; 6]", "[1 2; 3 4]"), ("row,mat", "[5 6]", "[1 2; 3 4]"), ("col2,mat23", "[10; 20]", "[1 2 3; 4 5 6]"), ("mat23,col2", "[1 2 3; 4 5 6]", "[10; 20]"), ("row3,mat23", "[10 20 30]", "[1 2 3; 4 5 6]"), ("mat23,row3", "[1 2 3; 4 5 6]", "[10 20 30]"), ("mat23,mat23", "[1 2 3; 4 5 6]", "[6 5 4; 3 2 1]"), ("mat23,mat32", "[1 2 3; 4 5 6]", "[1 2; 3 4; 5 6]"), ("mat32,mat23", "[1 2; 3 4; 5 6]", "[1 2 3; 4 5 6]")];
   let mut out = Vec::new();
   for f in crate::corpus::stdlib_functions().into_iter().filter(|f| !f.contains('_')) {
     for (an, a) in unary.iter() {
